@@ -5,6 +5,8 @@ import AcraModel.Crypto.Box
 import AcraModel.KeystoreSec.V1WriteLog
 import AcraModel.KeystoreSec.V1NamesLemmas
 import AcraModel.Generated.V1Export
+import AcraModel.KeystoreSec.V1Methods
+import AcraModel.KeystoreSec.Perms
 /-!
 # C07 — keys at rest are encrypted, bound to their owner, tamper-evident and confined
 
@@ -51,27 +53,27 @@ theorem fact_v1_encrypt_before_write :
 
 /-! ## confinement -/
 
-/-- **Confinement.** For an absolute keystore root, whatever key path the directory back end is
-given (any bytes: `..`, `/`, `\`, empty and dot components), `osPath` either rejects it or returns a
-cleaned absolute OS path whose components are the root's components followed by ordinary components
-only (no `..`, no `.`, no empty component, no separator inside) – lexically inside the root. -/
-theorem osPath_contained (root p q : Bytes) (hroot : root.head? = some slash)
-    (h : osPath root p = .ok q) :
+/-- **Join-and-check containment.** For an absolute root and any relative path `p` (any bytes),
+`containedJoin` either refuses `p` or returns a cleaned absolute path whose components are the root's
+components followed by ordinary components only – lexically inside the root. This is the check shared
+by the v2 directory back end (`osPath`) and the v1 bundle import (`isInsideFolder`). -/
+theorem containedJoin_contained (root p q : Bytes) (hroot : root.head? = some slash)
+    (h : containedJoin root p = .ok q) :
     ∃ rest, q = render ⟨true, (cleanP root).comps ++ rest⟩ ∧ ∀ c ∈ rest, GoodComp c := by
-  unfold osPath at h
+  unfold containedJoin at h
   have hne : root ≠ [] := by intro e; simp [e] at hroot
-  have hj : joinP root (replaceSeps p) = some (cleanP (root ++ slash :: replaceSeps p)) := by
+  have hj : joinP root (p) = some (cleanP (root ++ slash :: p)) := by
     simp [joinP, hne]
   rw [hj] at h
   simp only at h
   -- the joined path is rooted, its stack extends the root's stack
-  have hrooted : (root ++ slash :: replaceSeps p).head? = some slash := by
+  have hrooted : (root ++ slash :: p).head? = some slash := by
     cases root with
     | nil => exact absurd rfl hne
     | cons x r => simpa using hroot
   let S0 := cleanStack true [] (splitSlash root)
-  let S1 := cleanStack true S0 (splitSlash (replaceSeps p))
-  have hfull : cleanP (root ++ slash :: replaceSeps p) = ⟨true, S1.reverse⟩ := by
+  let S1 := cleanStack true S0 (splitSlash (p))
+  have hfull : cleanP (root ++ slash :: p) = ⟨true, S1.reverse⟩ := by
     simp only [cleanP, hrooted, splitSlash_append, cleanStack_append]
     simp [S1, S0]
   have hbase : cleanP root = ⟨true, S0.reverse⟩ := by
@@ -124,6 +126,44 @@ theorem osPath_contained (root p q : Bytes) (hroot : root.head? = some slash)
             · intro c hc
               have : c ∈ S1.reverse := by rw [hp]; simp [hc]
               exact hgood1 c (by simpa using this)
+
+
+/-- **Confinement.** For an absolute keystore root, whatever key path the directory back end is
+given (any bytes: `..`, `/`, `\`, empty and dot components), `osPath` either rejects it or returns a
+cleaned absolute OS path whose components are the root's components followed by ordinary components
+only (no `..`, no `.`, no empty component, no separator inside) – lexically inside the root. -/
+theorem osPath_contained (root p q : Bytes) (hroot : root.head? = some slash)
+    (h : osPath root p = .ok q) :
+    ∃ rest, q = render ⟨true, (cleanP root).comps ++ rest⟩ ∧ ∀ c ∈ rest, GoodComp c :=
+  containedJoin_contained root (replaceSeps p) q hroot h
+
+/-- **Confinement of the v1 bundle import.** Whatever name a key carries inside an export bundle
+(`KeyBackuper.Import` takes the names from the bundle, and a bundle is sealed under keys that travel
+with it), the key is either refused – and the whole bundle with it, before anything is written – or
+written to a cleaned path made of the key folder's components followed by ordinary components. -/
+theorem v1_import_contained (root name q : Bytes) (hroot : root.head? = some slash)
+    (h : importPath root name = .ok q) :
+    ∃ rest, q = render ⟨true, (cleanP root).comps ++ rest⟩ ∧ ∀ c ∈ rest, GoodComp c :=
+  containedJoin_contained root name q hroot h
+
+open Generated.V1Methods in
+/-- `KeyBackuper.Import` checks every key name of the bundle against both key folders
+(`isInsideFolder` – `filepath.Rel` of the joined path must not start with `..`, the check `containedJoin`
+models) before the first storage call. -/
+theorem fact_v1_import_checks_names :
+    v1ImportCalls.take 3 = ["isInsideFolder", "isInsideFolder", "store.storage.MkdirAll"] ∧
+    (v1ImportCalls.drop 2).all (· != "isInsideFolder") = true ∧
+    v1IsInsideFolderBody = ["relPath, err := filepath.Rel(folder, filepath.Join(folder, name))", "return err == nil && relPath != \"..\" && !strings.HasPrefix(relPath, \"..\"+string(filepath.Separator))"] := by
+  refine ⟨by decide, by decide, by decide⟩
+
+/-- **The pinned import escaped** (repair 52): a bundle whose key is named `../escaped.pub` was written
+next to the key folder (and a public key is written as it comes – attacker-chosen bytes at an
+attacker-chosen place); the repaired import refuses the bundle. -/
+theorem v1_import_pinned_counterexample :
+    importPathPinned (ofStr "/tmp/ks/root") (ofStr "../escaped.pub") = ofStr "/tmp/ks/escaped.pub" ∧
+    importPath (ofStr "/tmp/ks/root") (ofStr "../escaped.pub") = .err ∧
+    importPath (ofStr "/tmp/ks/root") (ofStr "client_a_storage.pub") = .ok (ofStr "/tmp/ks/root/client_a_storage.pub") := by
+  refine ⟨by decide, by decide, by decide⟩
 
 /-- **The pinned tree escapes** (DESIGN §8 #5): on the code as pinned, `osPath` accepts `../escaped`
 and maps it to a sibling of the keystore root. Witness replayed against the real back end by the
@@ -409,6 +449,294 @@ theorem v1_writer_pinned_counterexample :
 example : (writes boxOps [1] (List.replicate 12 0) (.genDataKeys (Path.ofStr "client_a") [7] [8])).isSome = true := by decide
 
 end V1
+
+/-! # Every id-taking method of the v1 key store is confined (readers and destroyers included)
+
+Model `KeystoreSec/V1Methods.lean`; tied by the regenerated method table and the op `C07.v1.access`
+(a recording `filesystem.Storage` under the real key store: every path handed to
+`Stat/Exists/ReadFile/ReadDir/Remove/MkdirAll/TempFile/WriteFile/Link/Rename`). -/
+section V1Methods
+open AcraModel.KeystoreSec.V1 AcraModel.KeystoreSec.V1Methods
+
+open Generated.V1Methods in
+/-- The exported methods of `KeyStore` / `TranslatorFileSystemKeyStore` that turn a caller-supplied
+`[]byte` into a file name are exactly the 23 methods of the model, in source order, and **every one of
+them** begins with `if !keystore.ValidateID(id) { return …, keystore.ErrInvalidClientID }` (the writers
+since repair 50, the readers and destroyers since repair 51). The name functions are the seven of
+`filenames.go` / `key_names.go`; the only other exported methods with a `[]byte` parameter take key
+*data*; the exported methods taking file names as strings are the package's plumbing (they are handed
+names built by the methods above or the key store's fixed names). A new id-taking method, or a guard
+that disappears, changes this table. -/
+theorem fact_v1_id_methods :
+    v1IdMethods.map (·.1) = Method.all.map Method.goName ∧
+    (v1IdMethods.all fun r => r.2.1) = true ∧
+    v1NameFunctions = ["GetServerDecryptionKeyFilename", "getClientIDSymmetricKeyName", "getConnectorKeyFilename", "getHmacKeyFilename", "getPublicKeyFilename", "getServerKeyFilename", "getTranslatorKeyFilename"] ∧
+    v1OtherByteMethods = ["KeyStore.WritePrivateKey", "KeyStore.WritePublicKey", "KeyStore.WriteKeyFile", "KeyStore.Add"] ∧
+    v1PathMethods = ["KeyStore.SaveKeyPairWithFilename(filename)", "KeyStore.WritePrivateKey(filename)", "KeyStore.WritePublicKey(filename)", "KeyStore.ReadKeyFile(filename)", "KeyStore.WriteKeyFile(filename)", "KeyStore.GetPrivateKeyFilePath(filename)", "KeyStore.GetPublicKeyFilePath(filename)", "KeyStore.GetHistoricalPrivateKeyFilenames(filename)", "KeyStore.Add(keyID)", "KeyStore.Get(keyID)"] := by
+  refine ⟨by decide, by decide, by decide, by decide, by decide⟩
+
+/-- every method of the model is guarded in the regenerated table -/
+theorem fact_v1_all_methods_validate : ∀ m : Method, m.validates = true := by
+  intro m; cases m <;> decide
+
+/-- **Confinement of every id-taking method of the v1 key store.** Whatever client id a generator,
+getter, "get all" reader, destroyer or rotated-key destroyer of the key store – or the translator key
+store's `CheckIfPrivateKeyExists` / `GetPrivateKey` – is given: either the call is refused before the
+storage is touched, or every path it hands to the storage (to read, list, stat, create, link, rename
+or remove) consists of ordinary components only – no `..`, no `.`, no empty component, no separator
+inside a component – relative to the key folder: lexically inside it. (`e`: names a directory listing,
+`TempFile` and the clock contribute; they are ordinary components / separator-free / time stamps.) -/
+theorem v1_all_methods_contained (m : Method) (id : Bytes) (e : Env) (he : e.WellFormed) (ps : List Bytes)
+    (h : access m id e = some ps) :
+    ∀ p ∈ ps, ∀ comp ∈ Path.splitSlash p, GoodComp comp := by
+  have hv : validateID id = true := by
+    unfold access accessWith at h
+    have hm : validatesIn Generated.V1Methods.v1IdMethods m = true := fact_v1_all_methods_validate m
+    rw [hm] at h
+    cases hid : validateID id with
+    | true => rfl
+    | false => simp [hid] at h
+  have hps : ps = touched m id e := by
+    unfold access accessWith at h
+    simp only [hv, Bool.not_true, Bool.and_false, Bool.false_eq_true, if_false, Option.some.injEq] at h
+    exact h.symm
+  subst hps
+  have one : ∀ suf : Bytes, Path.slash ∉ suf → AllGood [id ++ suf] := fun suf hs =>
+    allGood_cons (split_single_good hv suf hs) allGood_nil
+  have pair : ∀ suf : Bytes, Path.slash ∉ suf → Path.slash ∉ suf ++ sPub → AllGood (savePair (id ++ suf) e) := by
+    intro suf hs hsp
+    unfold savePair
+    refine allGood_append (writeKeyFile_good hv suf _ _ _ hs he.tmpPriv he.tsPriv) ?_
+    rw [List.append_assoc]
+    exact writeKeyFile_good hv (suf ++ sPub) _ _ _ hsp he.tmpPub he.tsPub
+  have nil_pair : AllGood (savePair id e) := by
+    have := pair [] (by simp) (by decide)
+    simpa using this
+  cases m
+  case getClientIDEncryptionPublicKey =>
+    show AllGood [id ++ sStorage ++ sPub]
+    rw [List.append_assoc]; exact one (sStorage ++ sPub) (by decide)
+  case getPeerPublicKey => exact one sPub (by decide)
+  case getPrivateKey => exact one sServer (by decide)
+  case getServerDecryptionPrivateKey => exact one sStorage (by decide)
+  case getServerDecryptionPrivateKeys => exact readAll_good hv sStorage (by decide) e he.privHist
+  case generateConnectorKeys => exact nil_pair
+  case generateServerKeys => exact pair sServer (by decide) (by decide)
+  case generateTranslatorKeys => exact pair sTranslator (by decide) (by decide)
+  case generateDataEncryptionKeys => exact pair sStorage (by decide) (by decide)
+  case saveDataEncryptionKeys => exact pair sStorage (by decide) (by decide)
+  case getHMACSecretKey => exact one sHmac (by decide)
+  case generateHmacKey => exact writeKeyFile_good hv sHmac _ _ _ (by decide) he.tmpPriv he.tsPriv
+  case generateClientIDSymmetricKey =>
+    simp only [touched, symName, List.append_assoc]
+    exact writeKeyFile_good hv (sStorage ++ sSym) _ _ _ (by decide) he.tmpPriv he.tsPriv
+  case getClientIDSymmetricKeys =>
+    simp only [touched, symName, List.append_assoc]
+    exact readAll_good hv (sStorage ++ sSym) (by decide) e he.privHist
+  case getClientIDSymmetricKey =>
+    show AllGood [id ++ sStorage ++ sSym]
+    rw [List.append_assoc]; exact one (sStorage ++ sSym) (by decide)
+  case destroyClientIDEncryptionKeyPair =>
+    simp only [touched, storageName, storagePubName, List.append_assoc]
+    exact allGood_cons (split_single_good hv _ (by decide)) (one (sStorage ++ sPub) (by decide))
+  case destroyClientIDSymmetricKey =>
+    show AllGood [id ++ sStorage ++ sSym]
+    rw [List.append_assoc]; exact one (sStorage ++ sSym) (by decide)
+  case destroyHmacSecretKey =>
+    simp only [touched, hmacName, List.append_assoc]
+    exact allGood_cons (split_single_good hv _ (by decide)) (one (sHmac ++ sPub) (by decide))
+  case destroyRotatedClientIDEncryptionKeyPair =>
+    have hold : AllGood [oldDir (id ++ sStorage)] := by
+      unfold oldDir; rw [List.append_assoc]; exact one (sStorage ++ sOld) (by decide)
+    have h1 := destroyRotated_good hv sStorage (by decide) e.privHist e.index he.privHist
+    have h2 := destroyRotated_good hv (sStorage ++ sPub) (by decide) e.pubHist e.index he.pubHist
+    rw [← List.append_assoc] at h2
+    show AllGood (if e.present = true then
+        if (destroyRotated (id ++ sStorage) e.privHist e.index).2 = true then
+          (destroyRotated (id ++ sStorage) e.privHist e.index).1 ++ (destroyRotated (id ++ sStorage ++ sPub) e.pubHist e.index).1
+        else (destroyRotated (id ++ sStorage) e.privHist e.index).1
+      else [oldDir (id ++ sStorage)])
+    split
+    · split
+      · exact allGood_append h1 h2
+      · exact h1
+    · exact hold
+  case destroyRotatedClientIDSymmetricKey =>
+    simp only [touched, symName, List.append_assoc]
+    cases e.present
+    · simp only [Bool.false_eq_true, if_false]
+      unfold oldDir; rw [List.append_assoc, List.append_assoc]; exact one (sStorage ++ (sSym ++ sOld)) (by decide)
+    · exact destroyRotated_good hv (sStorage ++ sSym) (by decide) e.privHist e.index he.privHist
+  case destroyRotatedHmacSecretKey =>
+    simp only [touched, hmacName]
+    cases e.present
+    · simp only [Bool.false_eq_true, if_false]
+      unfold oldDir; rw [List.append_assoc]; exact one (sHmac ++ sOld) (by decide)
+    · exact destroyRotated_good hv sHmac (by decide) e.privHist e.index he.privHist
+  case translatorCheckIfPrivateKeyExists => exact one sTranslator (by decide)
+  case translatorGetPrivateKey => exact one sTranslator (by decide)
+
+/-- an invalid id is refused by every method before anything is touched -/
+theorem v1_invalid_id_refused (m : Method) (id : Bytes) (e : Env) (h : validateID id = false) : access m id e = none := by
+  unfold access accessWith
+  have hm : validatesIn Generated.V1Methods.v1IdMethods m = true := fact_v1_all_methods_validate m
+  simp [hm, h]
+
+/-- **The readers and destroyers escaped before repair 51** (known finding
+`v1-unvalidated-client-id-escapes`, now fixed): with the guard table of the tree as it was after
+repair 50, `DestroyClientIDSymmetricKey("../../victim")` handed `../../victim_storage_sym` – a path
+whose first two components are `..` – to `Storage.Remove`, and `GetClientIDSymmetricKey("../escaped")`
+read `../escaped_storage_sym`. With the regenerated table both calls are refused. -/
+theorem v1_readers_pinned_counterexample :
+    let e : Env := ⟨false, [], [], [], [], [], [], 2⟩
+    accessWith pinnedTable .destroyClientIDSymmetricKey (Path.ofStr "../../victim") e = some [Path.ofStr "../../victim_storage_sym"] ∧
+    Path.splitSlash (Path.ofStr "../../victim_storage_sym") = [Path.dd, Path.dd, Path.ofStr "victim_storage_sym"] ∧
+    accessWith pinnedTable .getClientIDSymmetricKey (Path.ofStr "../escaped") e = some [Path.ofStr "../escaped_storage_sym"] ∧
+    access .destroyClientIDSymmetricKey (Path.ofStr "../../victim") e = none ∧
+    access .getClientIDSymmetricKey (Path.ofStr "../escaped") e = none := by
+  refine ⟨by decide, by decide, by decide, by decide, by decide⟩
+
+/-- non-vacuity: a valid client's "read all" touches the file, its history directory and the rotated keys -/
+example : access .getClientIDSymmetricKeys (Path.ofStr "client_a")
+    ⟨true, [Path.ofStr "2024-01-02T03:04:05.6"], [], [], [], Path.ofStr "2024-01-02T03:04:05", Path.ofStr "2024-01-02T03:04:05", 2⟩ =
+    some [Path.ofStr "client_a_storage_sym.old", Path.ofStr "client_a_storage_sym", Path.ofStr "client_a_storage_sym.old/2024-01-02T03:04:05.6"] := by decide
+
+end V1Methods
+
+/-! # Permission discipline
+
+Model `KeystoreSec/Perms.lean`; tied by the regenerated call table / constants and the ops `C07.perm.*`
+(real key stores of both formats under real umasks; every one of the 512 directory / file modes). -/
+section Perms
+open AcraModel.KeystoreSec.Perms AcraModel.KeystoreSec.V1WriteLog AcraModel.KeystoreSec.V1
+open AcraModel.CrossClient (keyContextBytes)
+
+open Generated.KeyPerms in
+/-- The permission constants are 0600 / 0644 / 0700 in both formats; the checks on existing key
+directories and key files are the ones `Perms.v1OpenAccepts / v2OpenAccepts / v1LoadAccepts` model;
+`FileStorage.TempFile` creates (0600) and then `Chmod`s to the requested mode; a history `Copy` keeps
+the source's mode; `Import` starts from the public mode and switches to the private one for private keys. -/
+theorem fact_perm_constants :
+    v1PrivateFileMode = 0o600 ∧ v1PublicFileMode = 0o644 ∧ v1KeyDirMode = 0o700 ∧
+    v2KeyFilePerm = 0o600 ∧ v2VersionPerm = 0o644 ∧ v2KeyDirPerm = 0o700 ∧
+    v1OpenPermConds = ["runtime.GOOS == \"linux\" && fi.Mode().Perm().String() != expectedPermission"] ∧
+    expectedPermission = "-rwx------" ∧
+    v1LoadPrivateKeyPermConds = ["runtime.GOOS == \"linux\" && fi.Mode().Perm() > PrivateFileMode"] ∧
+    v2CreatePermConds = ["fi.Mode().Perm() != keyDirPerm"] ∧ v2OpenPermConds = ["fi.Mode().Perm() != keyDirPerm"] ∧
+    v1TempFileCalls = ["ioutil.TempFile", "tmp.Chmod"] ∧
+    v1CopyPerm = ["perm := fi.Mode() & os.ModePerm"] ∧
+    v1ImportFilePermission = ["filePermission := publicFileMode", "filePermission = PrivateFileMode"] := by
+  refine ⟨by decide, by decide, by decide, by decide, by decide, by decide, by decide, by decide, by decide, by decide, by decide, by decide, by decide, by decide⟩
+
+/-- mode of a write of the v1 write log: `WritePrivateKey` / `WritePublicKey` -/
+def writeMode (w : Write) : Nat := if w.priv then Generated.KeyPerms.v1PrivateFileMode else Generated.KeyPerms.v1PublicFileMode
+
+/-- **Permission discipline.**
+(1) *Call table (regenerated):* every call in `keystore/filesystem` and the v2 directory back end that
+creates a file or directory is classified; every directory is created with 0700; every file with a
+constant mode gets 0600 – or 0644 inside `WritePublicKey` / `createVersionFile` only; the `mode`
+parameter of `WriteKeyFile` is fed by `WritePrivateKey` (0600), `WritePublicKey` (0644) and direct calls
+with `PrivateFileMode`; no call creates, reads or resolves a symbolic link.
+(2) *Write log:* in every operation of the v1 key store the write that carries the sealed secret is a
+0600 write; the only 0644 write carries the public key.
+(3) *Under every umask* what is created at a site holding key material (v1 key folder, `.poison_key`,
+history directories, private key files; v2 directories and ring files) has no group / other bit, and
+a created directory / file never has a bit its constant lacks. -/
+theorem perm_discipline :
+    disciplined Generated.KeyPerms.permCalls = true ∧
+    noSymlinkCalls Generated.KeyPerms.permCalls = true ∧
+    (∀ (c : CryptoOps) (master nonce : Bytes) (op : Op) (ws : List Write), writes c master nonce op = some ws →
+      ∃ ct, c.enc master (keyContextBytes op.ctx) op.secret nonce = some ct ∧
+        ∀ w ∈ ws, (w.data = ct → w.path = op.file → writeMode w = 0o600) ∧ (writeMode w ≠ 0o600 → some w.data = op.public)) ∧
+    (∀ (s : Site) (umask : Nat), s.holdsKeys = true → ownerOnly (effectiveAt s umask) = true) ∧
+    (∀ (umask i : Nat), (effectiveAt .v2Version umask).testBit i = true → (0o644 : Nat).testBit i = true) := by
+  refine ⟨by decide, by decide, ?_, ?_, ?_⟩
+  · intro c master nonce op ws h
+    obtain ⟨ct, he, hws, _, _⟩ := v1_writes_are_sealed c master nonce op ws h
+    refine ⟨ct, he, ?_⟩
+    intro w hw
+    rw [hws] at hw
+    simp only [List.mem_cons] at hw
+    rcases hw with rfl | hw
+    · exact ⟨fun _ _ => by simp [writeMode]; decide, fun hne => absurd (by simp [writeMode]; decide) hne⟩
+    · cases hpub : op.public with
+      | none => simp [hpub] at hw
+      | some pub =>
+        simp only [hpub, List.mem_cons, List.not_mem_nil, or_false] at hw
+        subst hw
+        refine ⟨fun _ hp => ?_, fun _ => rfl⟩
+        -- `<file>.pub` is not `<file>`
+        have := congrArg List.length hp
+        simp only [List.length_append] at this
+        have hl : sPub.length = 4 := by decide
+        omega
+  · intro s umask hs
+    cases s <;> simp only [Site.holdsKeys, Bool.false_eq_true] at hs
+    · exact created_ownerOnly _ _ (by decide)
+    · show ownerOnly (chmodded Generated.KeyPerms.v1PrivateFileMode) = true
+      decide
+    · exact created_ownerOnly _ _ (by decide)
+    · exact created_ownerOnly _ _ (by decide)
+  · intro umask i h
+    exact created_sub _ _ _ h
+
+set_option maxRecDepth 20000 in
+/-- the permission string of 9 bits is `-rwx------` exactly for 0700 (all 512 values) -/
+theorem perm_string_key : ∀ k, k < 512 → ((permString k == expectedPermission) = true ↔ k = 0o700) := by decide
+
+/-- **The checks on what already exists.** A v1 key store opens over an existing private key folder
+iff its permission bits are exactly 0700; the v2 directory back end creates / opens over an existing
+root iff its permission bits are exactly 0700 – in particular every directory with a group or other
+bit is refused by both. -/
+theorem open_perm_check (m : Nat) :
+    (v1OpenAccepts m = true ↔ m &&& 0o777 = 0o700) ∧ (v2OpenAccepts m = true ↔ m &&& 0o777 = 0o700) ∧
+    (m &&& 0o077 ≠ 0 → v1OpenAccepts m = false ∧ v2OpenAccepts m = false) := by
+  have hlt : m &&& 0o777 < 512 := Nat.lt_of_le_of_lt Nat.and_le_right (by decide)
+  have key : ∀ k, k < 512 → ((permString k == expectedPermission) = true ↔ k = 0o700) := perm_string_key
+  have h1 : v1OpenAccepts m = true ↔ m &&& 0o777 = 0o700 := by
+    unfold v1OpenAccepts permMask; exact key _ hlt
+  have h2 : v2OpenAccepts m = true ↔ m &&& 0o777 = 0o700 := by
+    unfold v2OpenAccepts permMask
+    simp only [beq_iff_eq]
+    constructor <;> (intro h; rw [h]) <;> decide
+  refine ⟨h1, h2, ?_⟩
+  intro hgo
+  have hne : m &&& 0o777 ≠ 0o700 := by
+    intro e
+    apply hgo
+    have : m &&& 0o077 = (m &&& 0o777) &&& 0o077 := by
+      rw [Nat.and_assoc]; rfl
+    rw [this, e]; decide
+  constructor
+  · cases hv : v1OpenAccepts m with
+    | false => rfl
+    | true => exact absurd (h1.mp hv) hne
+  · cases hv : v2OpenAccepts m with
+    | false => rfl
+    | true => exact absurd (h2.mp hv) hne
+
+set_option maxRecDepth 20000 in
+/-- **`loadPrivateKey`'s check is a numeric comparison** (modelled as it is): a private key file is
+refused iff its permission bits, read as a number, exceed 0600. Every file the owner can read and write
+that has any further bit is refused (`0640`, `0604`, `0700` …) – but a file *without* owner write
+permission passes whatever its group / other bits: `0444` (world readable) is accepted. The key store
+never creates such a file (`perm_discipline`); a file system somebody else changed is outside the
+property's attacker model (trusted base), so this is recorded, not reported. -/
+theorem v1_load_perm_check (m : Nat) (uid0 : Bool) :
+    (v1LoadAccepts m uid0 = true → m &&& 0o777 ≤ 0o600) ∧
+    (v1LoadAccepts 0o600 uid0 = true) ∧
+    (∀ k, k < 512 → k &&& 0o600 = 0o600 → k ≠ 0o600 → v1LoadAccepts k uid0 = false) ∧
+    v1LoadAccepts 0o444 uid0 = true ∧ v1LoadAccepts 0o640 uid0 = false := by
+  refine ⟨?_, by cases uid0 <;> decide, by cases uid0 <;> decide, by cases uid0 <;> decide, by cases uid0 <;> decide⟩
+  intro h
+  unfold v1LoadAccepts at h
+  simp only [Bool.and_eq_true, Bool.not_eq_true', decide_eq_false_iff_not] at h
+  have := h.1
+  unfold permMask at this
+  have hc : Generated.KeyPerms.v1PrivateFileMode = 0o600 := by decide
+  omega
+
+end Perms
 
 /-! ## non-vacuity -/
 
